@@ -24,6 +24,11 @@ pub uninterp spec fn union_spec(hs: Seq<Hash>) -> Hash;
 pub mod utils2 {}
 #[verifier::external_body]
 fn vf_fast_hash(s: &String) -> (r: Hash) ensures r == hash_str(s@) { unimplemented!() }
+// T (ASCII case folding, idna crate): the normal form of a listed domain name - lower case, an IDN in punycode - which is the form the
+// source hostname of a request has (C12); what the two branches compute is decided by vf/witness/c03_domain_names.rs on the real crate
+pub uninterp spec fn domain_norm(s: Seq<char>) -> Seq<char>;
+#[verifier::external_body]
+fn vf_domain_norm(s: String) -> (r: String) ensures r@ == domain_norm(s@) { unimplemented!() }
 #[verifier::external_body]
 fn vf_sort_dedup(v: &mut Vec<(bool, String)>) ensures final(v)@ == canon_domains(old(v)@) { unimplemented!() }
 #[verifier::external_body]
@@ -31,12 +36,13 @@ fn vf_sort(v: &mut Vec<Hash>) ensures final(v)@ == sort_spec(old(v)@) { unimplem
 #[verifier::external_body]
 fn vf_fold_or(v: &Vec<Hash>) -> (r: Hash) ensures r == union_spec(v@) { unimplemented!() }
 
-// "~ entries exclude": the hashes of the entries with the given sign, in order
+// "~ entries exclude": the hashes of the entries with the given sign, in order; a listed name counts in its normal form (a domain name
+// is case-insensitive, an IDN is the same name in Unicode and in punycode)
 pub open spec fn part_hashes(ds: Seq<(bool, String)>, upto: int, enabled: bool) -> Seq<Hash>
     decreases upto
 {
     if upto <= 0 { Seq::empty() }
-    else if ds[upto - 1].0 == enabled { part_hashes(ds, upto - 1, enabled).push(hash_str(ds[upto - 1].1@)) }
+    else if ds[upto - 1].0 == enabled { part_hashes(ds, upto - 1, enabled).push(hash_str(domain_norm(ds[upto - 1].1@))) }
     else { part_hashes(ds, upto - 1, enabled) }
 }
 
@@ -163,6 +169,13 @@ fn vf_apply_options(options: Vec<NetworkFilterOption>, init: Applied) -> (r: App
                         domains.dedup();
 //@ WITH
                         vf_sort_dedup(&mut domains);
+//@ ENDREPLACE
+//@ REPLACE R6
+                            let domain = if domain.is_ascii() {
+//@ UPTO
+                            };
+//@ WITH
+                            let domain = vf_domain_norm(domain);
 //@ ENDREPLACE
 //@ SUBST R6
     utils::fast_hash(&domain)
